@@ -1,9 +1,10 @@
 import MaltModel.Conv.ControlFlow
 import MaltModel.Conv.Contract
+import MaltModel.Conv.CFSpec
 import MaltModel.Py.SexpAst
 /- Driver handlers for the C03 correspondence (glue only; no theorem depends on this file). -/
 namespace Malt.Drv.C03
-open Malt Malt.Py Malt.Naming Malt.Conv.ControlFlow Malt.Conv.Contract
+open Malt Malt.Py Malt.Naming Malt.Conv.ControlFlow Malt.Conv.Contract Malt.Conv.CFSpec
 
 def run (f : Option String) : String := f.getD "bad-args"
 
@@ -69,6 +70,25 @@ def handlers : List (String × (List Sexp → String)) := [
         | some c => Sexp.list [.atom (kindStr c.kind), Sexp.ofStrs (nameStrs c), Sexp.ofBool (lengthsB c), Sexp.ofBool (positionsB c),
             Sexp.ofBool (arityB c), Sexp.ofBool (noutsB c), Sexp.ofBool (distinctB c), Sexp.ofBool (getterPureB c), Sexp.ofBool (setterDeclaresB c)]
       pure (toString (Sexp.list [Sexp.ofBool (contractOk g), .list rows]))),
+  -- Props/C01CF.lean: hypotheses evaluated on a real table, conclusions evaluated on the model's output
+  ("c01cf.eval", fun a => run do
+      let [tree, annos, ns, gen, b0] := a | none
+      let root ← parseStmt tree
+      let ann ← parseAnnoTable annos
+      let dirs ← dirTable ann
+      let nm : Namer := { globalNs := ← strs? ns, generated := (← strs? gen).reverse }
+      let env : Env := { ann, dirs }
+      let B ← strs? b0
+      let out := cfOutput env nm root
+      let noSkip := ann.all fun (_, k, _) => k != "skip"
+      pure (toString (Sexp.list [Sexp.ofBool noSkip, Sexp.ofBool (pdHypS env {} root), Sexp.ofBool (nlHypS env {} B root),
+        Sexp.ofBool (noNativeCFL out), Sexp.ofBool (pdOkL out), Sexp.ofBool (nlOkL B out)]))),
+  -- the same three predicates on a REAL tree (output of the real pass / final generated code)
+  ("c01cf.check", fun a => run do
+      let [tree, b0] := a | none
+      let g ← parseStmts tree
+      let B ← strs? b0
+      pure (toString (Sexp.list [Sexp.ofBool (noNativeCFL g), Sexp.ofBool (pdOkL g), Sexp.ofBool (nlOkL B g)]))),
   ("c03.blockvars", fun a => run do
       let [m, li, lo, di, g, n] := a | none
       let r := Malt.Conv.BlockVars.blockVars (← strs? m) (← strs? li) (← strs? lo) (← strs? di) (← strs? g) (← strs? n)
